@@ -72,6 +72,16 @@ def near_points(node, env, rng, out, fwd=lambda p: p):
         pass
 
 
+def scale_tree(node, sc):
+    """multiply every coordinate-valued parameter of the expression by `sc` (not the entries of a rotation matrix)"""
+    for i, pf in enumerate(node.pfs):
+        if node.kind == "rotate" and i == 0:
+            continue
+        pf.terms = [("*", geomgen.c(sc), t) if t[0] != "c" else geomgen.c(t[1] * sc) for t in pf.terms]
+    for kid in node.kids:
+        scale_tree(kid, sc)
+
+
 def make_case(ctx, idx):
     rng = ctx.rng
     mode = rng.choice(["solid2", "solid2", "solid2", "solid1", "solid3", "prod", "prod", "bdry", "bdry", "bdry-adjacent", "bdry-contained"])
@@ -138,6 +148,12 @@ def make_case(ctx, idx):
         g.allow_translate = False
         inner = g.solid(min(depth, 2), rng.choice(["x", "x", "y", "z"]))
         node = geomgen.Node("bdry", None, [], [inner])
+    # a quarter of the plain expressions live at another length scale (all coordinates times a power of two: sizes 1e-3 … 1e3);
+    # parameter values stay in [0, 1], rotation matrices are not scaled
+    sc = Fr(1)
+    if mode in ("solid2", "solid1", "solid3", "bdry") and rng.random() < 0.25:
+        sc = Fr(2) ** rng.choice([-8, -4, 4, 7])
+        scale_tree(node, sc)
     k = rng.choice([1, 2, 3]) if params else 0
     prow = [{p: [Fr(rng.randint(0, 16), 16)] for p in params} for _ in range(max(k, 1))]
     n = ctx.scale(40, 80)
@@ -147,7 +163,7 @@ def make_case(ctx, idx):
         pt = {}
         for var in node.vars():
             d = geomgen.DIM[var]
-            pt[var] = [Fr(rng.randint(-5 * 32, 5 * 32), 32) for _ in range(d)]
+            pt[var] = [Fr(rng.randint(-5 * 32, 5 * 32), 32) * sc for _ in range(d)]
         rows.append((pt, env))
     ring_rows = []
     if mode == "bdry-adjacent":
@@ -181,7 +197,7 @@ def make_case(ctx, idx):
     if shared_cut:
         o_, c1_, c2_ = [p_.eval({}) for p_ in node.kids[0].kids[0].pfs]
         axis_par = all(0 in (c_[0] - o_[0], c_[1] - o_[1]) for c_ in (c1_, c2_))
-    return dict(id=idx, mode=mode, shared_cut=shared_cut, axis_parallel=axis_par, adjacent=(node.kind == "bdry" and node.kids[0].kind == "union" and all(k.kind == "par" for k in node.kids[0].kids)
+    return dict(id=idx, mode=mode, scale=str(sc), shared_cut=shared_cut, axis_parallel=axis_par, adjacent=(node.kind == "bdry" and node.kids[0].kind == "union" and all(k.kind == "par" for k in node.kids[0].kids)
                                         and not node.free_vars() and bool(ring_rows)), ring_rows=ring_rows, dom=node.describe(), params=params,
                 rows=[({k_: [str(a) for a in v_] for k_, v_ in pt.items()}, {k_: [str(a) for a in v_] for k_, v_ in env.items()})
                       for pt, env in rows])
@@ -445,7 +461,8 @@ def interior_acceptance_all(cases, results, rep):
             x, y = [Fr(a) for a in pt["x"]]
             ee = {k: [Fr(a) for a in v] for k, v in env.items()}
             ls = []
-            for rad in (RING_DELTA, RING_DELTA / 2):
+            rd = RING_DELTA * Fr(cs.get("scale", "1"))
+            for rad in (rd, rd / 2):
                 for dx, dy in RING:
                     ls.append(f"sd {solid} {env_tokens({'x': [x + rad * dx, y + rad * dy]})} {env_tokens(ee)}")
             ls.append(f"sd {solid} {env_tokens({'x': [x, y]})} {env_tokens(ee)}")
@@ -581,6 +598,8 @@ def run(ctx, rep, cases=None):
     for cs, (a, n) in zip(cases, spans):
         node = geomgen.from_json(cs["dom"])
         rep.count("mode:" + cs["mode"])
+        if cs.get("scale", "1") != "1":
+            rep.count("length-scale:" + cs["scale"])
         if '"default ' in json.dumps(cs["dom"]):
             rep.count("parameter-function-with-defaulted-argument")
         if len(node.vars()) > 1 and cs.get("id", 0) % 2 == 1:
